@@ -84,7 +84,7 @@ class Check:
         return True
 
     def pre_steps(self):
-        for name in self.cfg.get("pre", []):
+        for name in ["translate_shared"] + self.cfg.get("pre", []):
             fn = getattr(__import__("presteps"), name)
             ok, detail = fn(self)
             if not ok:
